@@ -146,6 +146,15 @@ class Report:
                 n_new += 1
                 lines.append(f"VIOLATION property={self.prop} replay={path}")
                 lines.append(f"  fingerprint: {fp}  (x{e['count']})")
+        from . import engine_h as _eh
+        if _eh.MISMATCHES["count"]:
+            self.coverage["replay_state_mismatches"] = _eh.MISMATCHES["count"]
+            print(f"NON-DETERMINISTIC property={self.prop} {_eh.MISMATCHES['count']} histories replayed to a different "
+                  f"state than the one recorded for them, e.g. {json.dumps(jsonable(_eh.MISMATCHES['examples'][:1]))[:400]}")
+            if not n_new and not n_known:
+                raise HarnessError(
+                    f"{_eh.MISMATCHES['count']} histories did not replay to the recorded state and no violation "
+                    "was found: the library or the harness is not a deterministic function of the history")
         for k, nfp, ncases, path in known_groups.values():
             lines.append(f"KNOWN-FINDING: property={self.prop} {k.get('input', '')} -- {k.get('what', '')[:300]} "
                          f"({nfp} fingerprint(s), {ncases} case(s); e.g. replay={path})")
